@@ -21,6 +21,7 @@ use std::{
 
 mod ext;
 mod gen;
+mod net;
 mod run;
 mod tasks;
 
@@ -148,7 +149,7 @@ struct Pool {
 
 /// kinds that only the feature worker can run
 fn needs_features(proto: &[u64]) -> bool {
-    matches!(proto.first(), Some(18) | Some(19) | Some(9918))
+    matches!(proto.first(), Some(18) | Some(19) | Some(25) | Some(9918))
 }
 
 /// The feature worker is a generated one-file crate (source: src/c19/xworker.rs) so that the other
